@@ -112,23 +112,6 @@ def handles (w : World) : List Nat := w.sets.map (·.1)
 
 theorem handles_congr {w w' : World} (h : w'.sets = w.sets) : handles w' = handles w := by simp [handles, h]
 
-theorem removeAgent_sets (w : World) (b : Aid) : (removeAgent w b).sets = w.sets := by
-  cases hi : w.info[b]? with
-  | none => rw [removeAgent_none hi]
-  | some i =>
-    cases hr : w.regs[i.model]? with
-    | none => rw [removeAgent_noreg hi hr]
-    | some r => rw [removeAgent_some hi hr]
-
-theorem createAgent_sets (w : World) (m ty hold x) : (createAgent w m ty hold x).sets = w.sets := by
-  unfold createAgent; split <;> rfl
-
-theorem createN_sets (w : World) (m ty hold) (xs : List Payload) : (createN w m ty hold xs).sets = w.sets := by
-  unfold createN
-  induction xs generalizing w with
-  | nil => rfl
-  | cons x xs ih => simp only [List.foldl_cons]; rw [ih, createAgent_sets]
-
 theorem map_fst_set {l : List (Nat × List Aid)} {k m : Nat} {x y : List Aid} (h : l[k]? = some (m, x)) :
     (l.set k (m, y)).map (·.1) = l.map (·.1) := by
   apply List.ext_getElem?
